@@ -287,12 +287,16 @@ def scVal : BinOp → Val → Option Val
 def binK (P : Prog) (op : BinOp) (rhs : Expr) (ρ : Env) (a : Val) (w : World) (r : Res Val) : Prop :=
   match scVal op a with
   | some v => r = .ok v w
-  | none => RB (Ev P rhs ρ w) (fun b w'' r => r = exceptRes (binop op a b) w'') r
+  | none =>
+    if logicalNonBool op a then r = .fail (.stuck "logical operator on a non-boolean") w
+    else RB (Ev P rhs ρ w) (fun b w'' r => r = exceptRes (binop op a b) w'') r
 
 def binG (P : Prog) (op : BinOp) (rhs : Expr) (ρ : Env) (n : Nat) (a : Val) (w : World) : Res Val :=
   match scVal op a with
   | some v => .ok v w
-  | none => (eval n P ρ w rhs).bind (fun b w'' => exceptRes (binop op a b) w'')
+  | none =>
+    if logicalNonBool op a then .fail (.stuck "logical operator on a non-boolean") w
+    else (eval n P ρ w rhs).bind (fun b w'' => exceptRes (binop op a b) w'')
 
 theorem ev_bin {P op ty l rhs ρ w r} :
     Ev P (.bin op ty l rhs) ρ w r ↔ RB (Ev P l ρ w) (binK P op rhs ρ) r := by
@@ -300,23 +304,37 @@ theorem ev_bin {P op ty l rhs ρ w r} :
   · refine conv_bind' (F := fun n => eval n P ρ w l) (G := binG P op rhs ρ) (mono_eval _ _ _ _) ?_ ?_ r
     · intro a w'; unfold binG; split
       · exact mono_const _
-      · exact mono_bind (F := fun n => eval n P ρ w' rhs) (G := fun _ b w'' => exceptRes (binop op a b) w'')
-          (mono_eval _ _ _ _) (fun _ _ => mono_const _)
+      · split
+        · exact mono_const _
+        · exact mono_bind (F := fun n => eval n P ρ w' rhs) (G := fun _ b w'' => exceptRes (binop op a b) w'')
+            (mono_eval _ _ _ _) (fun _ _ => mono_const _)
     · intro a w' r; unfold binG binK; split
       · exact conv_ok
-      · exact conv_bind' (F := fun n => eval n P ρ w' rhs) (G := fun _ b w'' => exceptRes (binop op a b) w'')
-          (mono_eval _ _ _ _) (fun _ _ => mono_const _)
-          (fun b w'' _ => conv_const' (NF_exceptRes_binop op a b w'')) r
+      · split
+        · exact conv_stuck
+        · exact conv_bind' (F := fun n => eval n P ρ w' rhs) (G := fun _ b w'' => exceptRes (binop op a b) w'')
+            (mono_eval _ _ _ _) (fun _ _ => mono_const _)
+            (fun b w'' _ => conv_const' (NF_exceptRes_binop op a b w'')) r
   · intro n; rw [eval]; cases eval n P ρ w l with
     | fail f w' => rfl
     | ok a w' =>
       simp only [Res.bind, binG]
-      cases op <;> cases a <;> (try (rename_i bb; cases bb)) <;> simp only [scVal] <;>
-        first
-        | rfl
-        | (cases eval n P ρ w' rhs with
-           | fail f w2 => rfl
-           | ok b w2 => simp only [exceptRes]; split <;> simp_all)
+      split
+      · rfl
+      · rfl
+      · rename_i h1 h2
+        have hsc : scVal op a = none := by
+          unfold scVal; split
+          · exact (h1 rfl rfl).elim
+          · exact (h2 rfl rfl).elim
+          · rfl
+        rw [hsc]
+        simp only
+        split
+        · rfl
+        · cases eval n P ρ w' rhs with
+          | fail f w2 => rfl
+          | ok b w2 => simp only [exceptRes]; cases binop op a b <;> rfl
 
 /-! ### `match` -/
 
